@@ -383,7 +383,7 @@ func c06Sweep(c M) M {
 	}
 	inp0, out := rec(runs[0])
 	c["inp"] = inp0
-	c["sweep"] = []interface{}{int(runs[0].lo), int(runs[0].hi)}
+	out["run"] = []interface{}{int(runs[0].lo), int(runs[0].hi)} // the case keeps its whole block (replay re-runs all of it)
 	out["runlen"] = runs[0].n
 	rest := []interface{}{}
 	for _, u := range runs[1:] {
